@@ -293,14 +293,14 @@ class RandomFromSetCandidateGenerator(CandidateGenerator):
                 configs = self.base_set.copy()
                 self.pos_returned = set(range(self.num_base))
             else:
-                configs, new_pos = zip(
-                    *[
-                        (config, pos)
-                        for pos, config in enumerate(self.base_set)
-                        if not exclusion_list.contains(config)
-                    ]
-                )
-                configs = list(configs)
+                # Note: The list can be empty (all entries of ``base_set`` are
+                # excluded), so ``zip(*...)`` cannot be used to split it
+                new_pos = [
+                    pos
+                    for pos, config in enumerate(self.base_set)
+                    if not exclusion_list.contains(config)
+                ]
+                configs = [self.base_set[pos] for pos in new_pos]
                 self.pos_returned = set(new_pos)
         else:
             if exclusion_list is None:
